@@ -1199,6 +1199,11 @@ func (cfg *Config) glob(base, pat string) ([]string, error) {
 			}
 			matches = matches[:0]
 			var newMatches []string // to reuse its capacity
+			// Like Bash, "**" does not descend into symbolic links to directories.
+			// The links themselves are still listed by "**" and "**/",
+			// but they are not a directory level that "**/foo" goes through.
+			listLinks := i == len(parts)-1 || (i == len(parts)-2 && parts[i+1] == "")
+			var links []string
 			for len(stack) > 0 {
 				dir := stack[len(stack)-1]
 				stack = stack[:len(stack)-1]
@@ -1210,9 +1215,13 @@ func (cfg *Config) glob(base, pat string) ([]string, error) {
 				if cfg.DotGlob {
 					rx = rxGlobStarDotGlob.MatchString
 				}
-				newMatches, _ = cfg.globDir(base, dir, rx, wantDir, newMatches)
+				links = links[:0]
+				newMatches, _ = cfg.globDirLinks(base, dir, rx, wantDir, newMatches, &links)
 				for _, match := range slices.Backward(newMatches) {
 					stack = append(stack, match)
+				}
+				if listLinks {
+					matches = append(matches, links...)
 				}
 			}
 			continue
@@ -1251,6 +1260,12 @@ func (cfg *Config) glob(base, pat string) ([]string, error) {
 }
 
 func (cfg *Config) globDir(base, dir string, matcher func(string) bool, wantDir bool, matches []string) ([]string, error) {
+	return cfg.globDirLinks(base, dir, matcher, wantDir, matches, nil)
+}
+
+// globDirLinks is like globDir, but if links is not nil, the matching symbolic links
+// are appended to it rather than to matches.
+func (cfg *Config) globDirLinks(base, dir string, matcher func(string) bool, wantDir bool, matches []string, links *[]string) ([]string, error) {
 	fullDir := dir
 	if !filepath.IsAbs(dir) {
 		fullDir = filepath.Join(base, dir)
@@ -1277,9 +1292,14 @@ func (cfg *Config) globDir(base, dir string, matcher func(string) bool, wantDir 
 			// Not a symlink nor a directory.
 			continue
 		}
-		if matcher(name) {
-			matches = append(matches, pathJoin2(dir, name))
+		if !matcher(name) {
+			continue
 		}
+		if links != nil && info.Type()&os.ModeSymlink != 0 {
+			*links = append(*links, pathJoin2(dir, name))
+			continue
+		}
+		matches = append(matches, pathJoin2(dir, name))
 	}
 	return matches, nil
 }
